@@ -1033,6 +1033,28 @@ func checkDCMISensorInfo(c *Ctx, r *Report) {
 			exitTotal = byteBound
 		}
 	}
+	// what the pager hands back is a list of its own: the response's RecordIDs slice belongs to
+	// the command, which the caller reuses for the next entity (and the decoder recycles its
+	// backing array) — returning it, even for a one-page answer, lets the next entity's reply
+	// overwrite this one's
+	okOwn, whyOwn := true, ""
+	for _, ret := range returnsOf(pager) {
+		if len(ret.Results) == 0 {
+			continue
+		}
+		for _, o := range append(viewOrigins(pager, ret.Results[0]), possibleValues(ret.Results[0])...) {
+			ld, ok := stripConv(o).(*ssa.UnOp)
+			if !ok || ld.Op != token.MUL {
+				continue
+			}
+			for _, a := range viewAPs(pager, ld.X) {
+				if strings.HasSuffix(a.SelString(), "Rsp.RecordIDs") {
+					okOwn, whyOwn = false, a.String()
+				}
+			}
+		}
+	}
+	r.Check(okOwn, pname+"|returns its own list", pager.Pos(), "the list returned is built by the pager", "the pager returns the command's own response slice ("+whyOwn+"): the next entity's reply, decoded into the same command, overwrites the record IDs already handed out")
 	r.Check(exitEmpty, pname+"|stop on empty page", send.Pos(), "an empty page ends the enumeration", "an empty page does not end the enumeration (endless loop against a BMC that reports more instances than it returns)")
 	r.Check(exit255, pname+"|stop at 255", send.Pos(), "hard stop at 255 collected IDs", "no hard stop at 255 collected record IDs")
 	r.Check(exitTotal && exitEmpty && okApp, pname+"|terminates", send.Pos(), "continue only while collected < advertised count ≤ 255; each continuing iteration appends ≥ 1 ID", "cannot show that every continuing iteration makes progress towards a byte-bounded count")
